@@ -346,6 +346,7 @@ class Translator:
                 and not any(isinstance(n, ast.FunctionDef) and n.name == "__init__" for n in node.body):
             return self.add_dataclass(node)
         info = ClassInfo(node.name)
+        info.all_methods = {m_.name for m_ in node.body if isinstance(m_, ast.FunctionDef)}  # also those the unit does not translate
         self.classes[node.name] = info
         only = self.method_selection.get(node.name)
         virtual = self.virtual_methods.get(node.name, [])
@@ -608,6 +609,13 @@ def add_function(tr: Translator, node: ast.FunctionDef):
         body = [FixedParams(fixed, factories).visit(st) for st in body]
         for st in body:
             ast.fix_missing_locations(st)
+    for ln_, lt_ in spec.get("local_types", {}).items():  # `x = None` of a local the source leaves unannotated: its declared type
+        hits = [i for i, st in enumerate(body) if isinstance(st, ast.Assign) and len(st.targets) == 1 and isinstance(st.targets[0], ast.Name)
+                and st.targets[0].id == ln_ and isinstance(st.value, ast.Constant) and st.value.value is None]
+        if len(hits) != 1:
+            bad(node, f"exactly one top-level `{ln_} = None` is expected")
+        ann = ast.AnnAssign(target=ast.Name(id=ln_, ctx=ast.Store()), annotation=ast.parse(lt_, mode="eval").body, value=ast.Constant(value=None), simple=1)
+        body[hits[0]] = ast.fix_missing_locations(ast.copy_location(ann, body[hits[0]]))
     for n_ in spec.get("ignore_locals", ()):  # locals that only feed error messages
         body = [DropLocal(n_).visit(st) for st in body]
         body = [st for st in body if st is not None]
@@ -722,6 +730,7 @@ class Mode:
         # yield e  (generators: the values yielded so far are the list ys__)
         if isinstance(s, ast.Pass) and hasattr(s, "_raise_if"):
             ex_ = self.tr.gensym("e")
+            self.env_now = env
             return f"match {s._raise_if} with\n| Exn {ex_} => {self.on_exn(ex_)}\n| Val _ =>\n{self.stmts(rest, env)}\nend"
         if isinstance(s, (ast.Assign, ast.AnnAssign)) and s.value is not None:
             tg_ = s.targets[0] if isinstance(s, ast.Assign) and len(s.targets) == 1 else getattr(s, "target", None)
@@ -1172,14 +1181,34 @@ class Mode:
         if isinstance(f, ast.Name) and f.id in tr.functions and isinstance(tr.functions[f.id][1], tuple) and tr.functions[f.id][1][0] == "gen" \
                 and f.id not in env:
             params, ret = tr.functions[f.id]
-            if any(is_mutable(t) and p not in tr.readonly_params.get(f.id, set()) and not (isinstance(t, tuple) and t[0] in ("seq", "iter")) for p, t in params):
-                return None
+            mut_ps = [(i, p, t) for i, (p, t) in enumerate(params) if is_mutable(t) and p not in tr.readonly_params.get(f.id, set())]
+            by_kw = {kw.arg: kw.value for kw in e.keywords}
+            rebind, unwrap = {}, {}
+            for i, p, t in mut_ps:
+                if isinstance(t, tuple) and t[0] in ("seq", "iter"):
+                    continue  # (lists passed in and consumed: what is left is not used again)
+                arg_ = e.args[i] if i < len(e.args) else by_kw.get(p)
+                if isinstance(t, tuple) and t[0] == "obj" and isinstance(arg_, ast.Name) and env.get(arg_.id) == t:
+                    rebind[p] = arg_.id  # an object handed over and changed by the callee: the caller's variable is what comes back
+                elif isinstance(t, tuple) and t[0] == "obj" and isinstance(arg_, ast.Name) and env.get(arg_.id) == ("opt", t):
+                    rebind[p] = arg_.id
+                    unwrap[p] = arg_.id  # declared `C | None`: None there is outside the model (what the callee does with None is not translated)
+                else:
+                    return None
             r_, ys_ = tr.gensym("r"), tr.gensym("ys")
-            nouts = sum(1 for p, t in params if is_mutable(t) and p not in tr.readonly_params.get(f.id, set()))
 
             def run(k):
-                outs = [tr.gensym("o") for _ in range(nouts)]  # (lists passed in and consumed: what is left is not used again)
-                return self.args(e, params, env, lambda a: k(f"let '({', '.join([r_] + outs + [ys_])}) := {f.id} {' '.join(a)} in\n", r_, ys_, ret[1], env))
+                outs = [(p, tr.gensym("o")) for _, p, _ in mut_ps]
+                back = "".join(f"let {mangle(rebind[p])} := {'Some ' if p in unwrap else ''}{o_} in\n" for p, o_ in outs if p in rebind)
+                env_in = dict(env)
+                pre_, post_ = "", ""
+                self.env_now = env
+                for p, v_ in unwrap.items():
+                    pre_ += f"match {mangle(v_)} with\n| None => {self.on_exn('OutsideModel')}\n| Some {mangle(v_)} =>\n"
+                    post_ += "\nend"
+                    env_in[v_] = env[v_][1]
+                return pre_ + self.args(e, params, env_in, lambda a: k(f"let '({', '.join([r_] + [o_ for _, o_ in outs] + [ys_])}) := {f.id} {' '.join(a)} in\n" + back,
+                                                                      r_, ys_, ret[1], env)) + post_
             return run
         if isinstance(f, ast.Attribute) and isinstance(f.value, ast.Name) and isinstance(env.get(f.value.id), tuple) and env[f.value.id][0] == "obj":
             sub = tr.classes.get(env[f.value.id][1])
@@ -1318,6 +1347,8 @@ class Mode:
             return k("true" if st_ else "false")
         if isinstance(e, ast.UnaryOp) and isinstance(e.op, ast.Not):
             return self.cond(e.operand, env, lambda c: k(f"(negb {c})"))
+        if isinstance(e, ast.Call) and isinstance(e.func, ast.Name) and e.func.id == "bool" and len(e.args) == 1 and not e.keywords:
+            return self.cond(e.args[0], env, k)  # bool(x): the truth value of x
         if isinstance(e, ast.BoolOp) and not all(is_pure(v) for v in e.values[1:]):
             # an operand that can raise (a subscript, a call) is evaluated only when Python evaluates it
             is_and = isinstance(e.op, ast.And)
@@ -1344,6 +1375,13 @@ class Mode:
             if isinstance(t, tuple) and t[0] == "opt":
                 if not (t[1] in ("int", "str", "bool", "fname") or (isinstance(t[1], tuple) and t[1][0] in ("pb", "obj"))):
                     bad(e, f"truth value of {t}")
+                if isinstance(t[1], tuple) and t[1][0] == "obj":
+                    # an object is true unless its class says otherwise (__bool__ / __len__): refused when it does
+                    tr_ = self.tr
+                    fam_ = getattr(tr_, "families", {}).get(t[1][1])
+                    if (fam_ is not None and (fam_.userlist or any(fam_.resolve(c_, m_) is not None for c_ in fam_.order for m_ in ("__bool__", "__len__")))) \
+                            or any(m_ in getattr(tr_.classes.get(t[1][1]), "methods", {}) or m_ in getattr(tr_.classes.get(t[1][1]), "all_methods", ()) for m_ in ("__bool__", "__len__")):
+                        bad(e, f"truth value of an object whose class defines __bool__ or __len__ ({t[1][1]})")
                 inner = {"int": "negb (x_ =? 0)", "str": "negb (str_is_empty x_)", "bool": "x_"}.get(t[1], "true")
                 return k(f"(match {v} with Some x_ => {inner} | None => false end)")
             if isinstance(t, tuple) and t[0] in ("seq", "set"):
@@ -1498,7 +1536,8 @@ class Mode:
             return self.cond(e, env, lambda c: k(c, "bool"))
         if isinstance(e, ast.BoolOp) and (not all(is_pure(v) for v in e.values[1:]) or len(e.values) != 2):
             # only as a truth value (every operand a test)
-            if all(isinstance(v, (ast.Compare, ast.BoolOp)) or (isinstance(v, ast.UnaryOp) and isinstance(v.op, ast.Not)) for v in e.values):
+            if all(isinstance(v, (ast.Compare, ast.BoolOp)) or (isinstance(v, ast.UnaryOp) and isinstance(v.op, ast.Not))
+                   or (isinstance(v, ast.Call) and isinstance(v.func, ast.Name) and v.func.id == "bool") for v in e.values):
                 return self.cond(e, env, lambda c: k(c, "bool"))
             bad(e, "and/or shape")
         if isinstance(e, ast.BoolOp):
@@ -1824,6 +1863,10 @@ class Mode:
     def call(self, e, env, k) -> str:
         tr = self.tr
         f = e.func
+        if isinstance(f, ast.Name) and f.id in getattr(tr, "class_alias", {}) and f.id not in env:
+            # the constructor of a subclass the unit extends a class with (it defines no __init__ of its own): the base class's
+            e = ast.copy_location(ast.Call(func=ast.copy_location(ast.Name(id=tr.class_alias[f.id], ctx=ast.Load()), f), args=e.args, keywords=e.keywords), e)
+            f = e.func
         r, o, ex, x = tr.gensym("r"), tr.gensym("o"), tr.gensym("e"), tr.gensym("x")
         # module-level functions of the unit
         if isinstance(f, ast.Name) and f.id in tr.functions and any(is_mutable(t) and p not in tr.readonly_params.get(f.id, set())
@@ -1854,6 +1897,12 @@ class Mode:
                     return k(f"(od_len {v})", "int")
                 if isinstance(t, tuple) and t[0] in ("seq", "set"):
                     return k(f"(seq_len {v})", "int")
+                if DYN and t == "any":
+                    # len(x) of a dynamic value: the NamedTuples have their number of fields; the other classes have no len()
+                    # (a str has: not modelled)
+                    l_ = tr.gensym("l")
+                    return (f"match {v} with\n| O_str _ => {self.on_exn('OutsideModel')}\n| _ =>\nmatch obj_items {v} with\n| None => {self.on_exn('TypeError')}\n"
+                            f"| Some {l_} =>\n{k(f'(seq_len {l_})', 'int')}\nend\nend")
                 bad(e, "len of this type")
             return self.expr(e.args[0], env, k_len)
         # constructors of dynamic values (dyn.py)
@@ -2001,6 +2050,15 @@ class Mode:
             subs = fam.subclasses(e.args[1].id)
             return self.expr(e.args[0], env, lambda c, ct: (
                 k("(" + " || ".join(f"{root}_cls_eqb {c} {fam.tag(x)}" for x in subs) + ")", "bool") if ct == ("cls", root) else bad(e, "issubclass of a non-class")))
+        # isinstance(x, B) for a local object x of a class family: its class is B or below
+        if isinstance(f, ast.Name) and f.id == "isinstance" and len(e.args) == 2 and not e.keywords and isinstance(e.args[1], ast.Name) \
+                and e.args[1].id in getattr(tr, "class_tags", {}) and isinstance(e.args[0], ast.Name) \
+                and env.get(e.args[0].id) == ("obj", tr.class_tags[e.args[1].id][0]):
+            root, _ = tr.class_tags[e.args[1].id]
+            fam = tr.families[root]
+            subs = fam.subclasses(e.args[1].id)
+            x_ = mangle(e.args[0].id)
+            return k("(" + " || ".join(f"{root}_cls_eqb ({root}_cls_tag {x_}) {fam.tag(c_)}" for c_ in subs) + ")", "bool")
         # c(kw=..) for a class value c of a family: the constructor of whichever class c is
         if isinstance(f, ast.Name) and isinstance(env.get(f.id), tuple) and env[f.id][0] == "cls" and not e.args:
             root = env[f.id][1]
@@ -2022,9 +2080,14 @@ class Mode:
                 call = ast.Call(func=ast.Name(id=c, ctx=ast.Load()), args=[], keywords=kws)
                 return self.args(call, [(p, pt) for p, pt, _ in params], env, lambda a: f"{c}___init__ {' '.join(a)}")
             arms = []
-            for c in fam.order:
-                b = branch(c)
-                arms.append(f"| {fam.tag(c)} => {b if b is not None else 'Exn TypeError'}")
+            saved_on_exn = self.on_exn
+            self.on_exn = lambda e_: f"Exn {e_}"  # inside the alternatives: the outcome of the construction itself
+            try:
+                for c in fam.order:
+                    b = branch(c)
+                    arms.append(f"| {fam.tag(c)} => {b if b is not None else 'Exn TypeError'}")
+            finally:
+                self.on_exn = saved_on_exn
             return (f"match (match {cv} with\n" + "\n".join(arms) + f"\nend) with\n| Exn {ex} => {self.on_exn(ex)}\n| Val {o} =>\n{k(o, ('obj', root))}\nend")
         # getattr(jelly.<Enum>, name) where name came from jelly.<Enum>.Name(v): v again
         if isinstance(f, ast.Name) and f.id == "getattr" and len(e.args) == 2 and not e.keywords and isinstance(e.args[1], ast.Name) \
@@ -2370,7 +2433,7 @@ UNITS = {
     "generic_sink": {"src": "pyjelly/integrations/generic/generic_sink.py", "ctx": True, "uses": [], "gen": "GenericSinkGen",
                      "items": [{"dyn": "obj", "src": "pyjelly/integrations/generic/generic_sink.py",
                                 "classes": ["IRI", "BlankNode", "Literal", "Triple", "Quad", "Prefix"], "singletons": {"DefaultGraph": "_DefaultGraph"}},
-                               ("GenericStatementSink", ["__init__", "add", "bind", "__iter__", "namespaces", "identifier", "store"])]},
+                               ("GenericStatementSink", ["__init__", "add", "bind", "__iter__", "namespaces", "identifier", "store", "is_triples_sink"])]},
     "generic_parse": {"src": "pyjelly/integrations/generic/parse.py", "ctx": True, "uses": ["lookup_dec", "options", "decode", "generic_sink"],
                       "gen": "GenericParseGen",
                       "defines": ["Adapter", "Adapter_options", "Adapter_iri", "Adapter_default_graph", "Adapter_bnode", "Adapter_literal", "Adapter_triple",
@@ -2416,7 +2479,10 @@ UNITS = {
                               "triples_stream_frames": {"param_types": {"data": "GenericStatementSink", "stream": "Stream"}},
                               "quads_stream_frames": {"param_types": {"data": "GenericStatementSink", "stream": "Stream"}},
                               "graphs_stream_frames": {"param_types": {"data": "GenericStatementSink", "stream": "Stream"}},
-                              "split_to_graphs": {"param_types": {"data": "list[Any]"}}},
+                              "split_to_graphs": {"param_types": {"data": "list[Any]"}},
+                              "stream_frames": {"singledispatch": True, "param_types": {"data": "GenericStatementSink", "stream": "Stream"}},
+                              "grouped_stream_to_frames": {"param_types": {"sink_generator": "list[GenericStatementSink]", "options": "SerializerOptions | None"},
+                                                           "local_types": {"stream": "Stream | None"}}},
                           "gen": "GenericSerializeGen", "explicit_T": True,
                           "items": [
                               {"dyn": "obj", "imported": True, "src": "pyjelly/integrations/generic/generic_sink.py",
@@ -2424,7 +2490,8 @@ UNITS = {
                               {"extend": "TermEncoder", "subclass": "GenericSinkTermEncoder", "base_src": "pyjelly/serialize/encode.py",
                                "methods": ["encode_spo", "encode_graph"], "inline": ["get_iri_field", "get_literal_field", "get_triple_field"],
                                "recursive": {"method": "encode_spo", "through": ["TermEncoder_encode_quoted_triple"], "fuel": "term"}},
-                              "namespace_declarations", "triples_stream_frames", "quads_stream_frames", "split_to_graphs", "graphs_stream_frames"]},
+                              "namespace_declarations", "triples_stream_frames", "quads_stream_frames", "split_to_graphs", "graphs_stream_frames",
+                              "guess_options", "guess_stream", "stream_frames", "grouped_stream_to_frames"]},
     # the rdflib integration's term encoder over rdflib's term objects as SPECIFIED here (URIRef, BNode, Literal: str subclasses; what
     # str(x), x.language, x.datatype give; `==`: same class and same string, for a Literal also equal language tags up to case and
     # equal datatypes; rdflib.graph.DATASET_DEFAULT_GRAPH_ID).  The specification is compared with the real rdflib by primcheck.py
@@ -2475,6 +2542,49 @@ class ForeignNames(ast.NodeTransformer):
                     and b.func.id == "str" and len(b.args) == 1 and not b.keywords and ast.unparse(b.args[0]) == ast.unparse(a):
                 return a
         return n
+
+
+def singledispatch_body(tr, mod: ast.Module, node: ast.FunctionDef) -> ast.FunctionDef:
+    """`@singledispatch def f(x, ..): <default>` with `@f.register(C) def f_C(x, ..)` implementations (classes of one family): f as
+    the choice functools.singledispatch makes -- the implementation registered for the nearest class in type(x)'s MRO, i.e. an
+    isinstance chain from the most specific registered class to the least, then the default body.  (A generator when the
+    implementations are: `yield from f_C(x, ..)`.)"""
+    if [ast.unparse(d) for d in node.decorator_list] != ["singledispatch"]:
+        bad(node, "the unit expects @singledispatch")
+    regs = []
+    for m in mod.body:
+        if isinstance(m, ast.FunctionDef):
+            for d in m.decorator_list:
+                if isinstance(d, ast.Call) and ast.unparse(d.func) == f"{node.name}.register" and len(d.args) == 1 and isinstance(d.args[0], ast.Name) and not d.keywords:
+                    regs.append((d.args[0].id, m.name))
+                elif ast.unparse(d).startswith(f"{node.name}.register"):
+                    bad(m, "register form")
+    if not regs:
+        bad(node, "no registered implementation")
+    for c, fn in regs:
+        if c not in getattr(tr, "class_tags", {}) or fn not in tr.functions:
+            bad(node, f"{fn} registered for {c}: the class is not of a translated family or the function is not translated (list it before {node.name})")
+    root = tr.class_tags[regs[0][0]][0]
+    fam = tr.families[root]
+
+    def depth(c):
+        n_, d_ = c, 0
+        while fam.parent.get(n_):
+            n_, d_ = fam.parent[n_], d_ + 1
+        return d_
+    regs.sort(key=lambda r_: -depth(r_[0]))
+    params = [a.arg for a in node.args.args]
+    is_gen = isinstance(tr.functions[regs[0][1]][1], tuple) and tr.functions[regs[0][1]][1][0] == "gen"
+    body: list = list(node.body)  # the default implementation
+    for c, fn in reversed(regs):
+        call = ast.Call(func=ast.Name(id=fn, ctx=ast.Load()), args=[ast.Name(id=p_, ctx=ast.Load()) for p_ in params], keywords=[])
+        then = [ast.Expr(value=ast.YieldFrom(value=call)), ast.Return(value=None)] if is_gen else [ast.Return(value=call)]
+        test = ast.Call(func=ast.Name(id="isinstance", ctx=ast.Load()), args=[ast.Name(id=params[0], ctx=ast.Load()), ast.Name(id=c, ctx=ast.Load())], keywords=[])
+        body = [ast.If(test=test, body=then, orelse=body)]
+    new = ast.FunctionDef(name=node.name, args=node.args, body=body, decorator_list=[], returns=node.returns, type_comment=None)
+    ast.copy_location(new, node)
+    ast.fix_missing_locations(new)
+    return new
 
 
 class FixedParams(ast.NodeTransformer):
@@ -2620,6 +2730,7 @@ def run_unit(repo: Path, unit: str) -> tuple["Translator", set[str], list[str]]:
     tr.import_info: dict[str, tuple[str, list[str]]] = {}
     tr.deferred_abbrev: list[str] = []
     ext_specs = [i for i in (u["items"] or []) if isinstance(i, dict) and "extend" in i]
+    tr.class_alias = {s_["subclass"]: s_["extend"] for s_ in ext_specs}
     defined_virtuals = {f"{s_['extend']}_{m_}" for s_ in ext_specs for m_ in s_["methods"]} | ({"any_eqb"} if ext_specs else set())
     defined_virtuals |= set(u.get("defines", ()))  # section variables of the units built on (an opaque class, its methods) that this unit defines
     tr.defined_virtuals = defined_virtuals
@@ -2767,7 +2878,14 @@ def run_unit(repo: Path, unit: str) -> tuple["Translator", set[str], list[str]]:
         cn = {item_name(n) for n in chosen}
 
         def deps(n):
-            return {x.id for x in ast.walk(n) if isinstance(x, ast.Name) and x.id in cn} - {item_name(n)}
+            parts = [n]
+            if isinstance(n, ast.FunctionDef):
+                parts = list(n.body) + [n.args]  # (not the decorators: `@f.register(C)` does not call f)
+            got = {x.id for part in parts for x in ast.walk(part) if isinstance(x, ast.Name) and x.id in cn} - {item_name(n)}
+            if isinstance(n, ast.FunctionDef) and u.get("functions", {}).get(n.name, {}).get("singledispatch"):
+                got |= {m.name for m in mod.body if isinstance(m, ast.FunctionDef) and m.name in cn
+                        and any(ast.unparse(d).startswith(f"{n.name}.register") for d in m.decorator_list)}
+            return got
 
         ordered, rest = [], list(chosen)
         while rest:
@@ -2836,6 +2954,8 @@ def run_unit(repo: Path, unit: str) -> tuple["Translator", set[str], list[str]]:
             tr.add_class(n)
         elif isinstance(n, ast.FunctionDef):
             tr.out.append(f"(* ---- def {n.name} ({rel}) *)")
+            if tr.func_specs.get(n.name, {}).get("singledispatch"):
+                n = singledispatch_body(tr, mod, n)
             add_function(tr, n)
         elif isinstance(n, ast.Assign) and isinstance(n.value, ast.Set):
             tr.int_sets[item_name(n)] = list(n.value.elts)
